@@ -61,6 +61,7 @@ Definition apply_op (c : coll) (o : op) : outcome (coll * list event) :=
   | MarkDone =>
       (* done(): if !self.done { send Done; self.done = true }  -- never panics *)
       if cdone c then Ok (c, []) else Ok ({| items := l; cdone := true |}, [EDone])
+  | Extend [] => Ok (c, [])   (* the loop over the iterator never calls push: no assert_not_done, no event *)
   | _ =>
     if cdone c then Panic (* assert_not_done *) else
     match o with
